@@ -4,13 +4,13 @@ SPEC = {
         "sources": ["c11.cpp", "c11_cases_f.cpp", "c11_cases_d.cpp", "c11_misc.cpp", "c11_near.cpp"],
         "lib": ["ImathMatrixAlgo.cpp"],
         "technique": "exhaustive enumeration of 24 orders x angle grids and gimbal-lock families against a long-double product of elementary axis rotations",
-        "level_text": "Every one of the 24 Euler orders (decoded from the enum's documented bit-fields) is run, in float and double, over the complete (k*pi/6)^3 grid for k in [-12,12] and over the at-and-around-gimbal-lock families (middle angle within 10^-j of the lock value, j up to 15) through the real Euler<T> builders, extractors, quaternion path, re-ordering constructor, angleMod and makeNear family; each result is compared with a reference rotation composed in the harness from three elementary axis rotations in long double, with a-priori tolerances (8 eps builders, flat 16 eps extraction round trip including at gimbal lock, bitwise for the 3x3/4x4 copies and for the layout permutations); a 4x4 carrying a translation row must give numerically equal angles; makeNear is run with the target given in every one of the 24 orders.",
+        "level_text": "Every one of the 24 Euler orders (decoded from the enum's documented bit-fields) is run, in float and double, over the complete (k*pi/6)^3 grid for k in [-12,12] and over the at-and-around-gimbal-lock families (middle angle within 10^-j of the lock value, j up to 15) through the real Euler<T> builders, extractors, quaternion path, re-ordering constructor, angleMod and makeNear family; each result is compared with a reference rotation composed in the harness from three elementary axis rotations in long double, with a-priori tolerances (8 eps builders, flat 16 eps extraction round trip including at gimbal lock, bitwise for the 3x3/4x4 copies and for the layout permutations); a 4x4 carrying a translation row must give numerically equal angles; makeNear is run with the target given in every one of the 24 orders. Added for the seeded change C11-v1: XYZ vs Matrix44::setEulerAngles on all 16 entries, with setEulerAngles called on a fresh Matrix44 and on objects pre-filled with distinct primes / sign-flipped transposed primes / NaN in every slot (bitwise the fresh result), and extract() on Euler objects that already hold angles.",
         "level_note": "Decides the property for the enumerated alphabets only (angles on the pi/6 grid over two periods, 10^-j neighbourhoods of gimbal lock, 100 turns for angleMod); trusts x86-64 long double sinl/cosl and glibc's 1-ulp float/double libm.",
         "deadline": {"quick": 200, "thorough": 800},
         "rule": "complete enumeration of 24 orders x {float,double} x (k*pi/6)^3, k in [-12,12], plus gimbal-lock families, 24x24 re-orderings, "
                 "angleMod over 100 turns and makeNear/nearestRotation/simpleXYZRotation pairs; non-trivial = by a predicate on the input: order is "
                 "repeated-axis or rotating-frame, middle angle exactly at or within 10^-j of gimbal lock, angleMod remainder outside [-pi,pi] or within "
-                "1e-6 of +-pi, alternative triple strictly closer, angle difference at an odd multiple of pi, target given in another order (each of the 23 others), 4x4 input with a translation row "
+                "1e-6 of +-pi, alternative triple strictly closer, angle difference at an odd multiple of pi, target given in another order (each of the 23 others), 4x4 input with a translation row, setEulerAngles / extract called on an object that holds primes or NaN "
                 "('.generic' classes excluded)",
         "assumptions": ["long double has a 64-bit significand (x86-64)",
                         "harness compiled with g++ -O2 -std=c++14 without FMA contraction, as the repository's default build"],
